@@ -9,9 +9,10 @@ Record pstate14 := mkP14 {
   t1s : list Z;                   (* transmit timestamps reported for it *)
   resps : list presp;
   pfups : list pfup;
-  responder : option port_identity   (* first identity that answered the current request *)
+  responder : option port_identity;  (* first identity that answered the current request *)
+  contested : bool                   (* a second identity answered the current request *)
 }.
-Definition p14_empty := mkP14 None [] [] [] None.
+Definition p14_empty := mkP14 None [] [] [] None false.
 
 Definition wts (w : wire_ts) : Z := (ts_secs w * NS_PER_S + ts_nanos w) * FRAC.
 
@@ -57,7 +58,7 @@ Definition step_port14 (c : pcase) (prev : snapshot) (e : event) (p : nat) (o : 
     match e with
     | EvSendTimestamp q (CtxPDelayReq id) ts =>
         if Nat.eqb p q && opt_z_eqb (Some id) (cur_id s)
-        then mkP14 (cur_id s) (ts :: t1s s) (resps s) (pfups s) (responder s) else s
+        then mkP14 (cur_id s) (ts :: t1s s) (resps s) (pfups s) (responder s) (contested s) else s
     | _ => s
     end in
   let incoming : option message :=
@@ -83,15 +84,15 @@ Definition step_port14 (c : pcase) (prev : snapshot) (e : event) (p : nat) (o : 
   let s2 :=
     match rel with
     | Some (m, src) =>
-        if conflict then s1 else
+        if conflict then mkP14 (cur_id s1) (t1s s1) (resps s1) (pfups s1) (responder s1) true else
         match m_body m, e with
         | BPDelayResp t2 _, EvRecvEvent _ _ ts =>
             mkP14 (cur_id s1) (t1s s1)
                   (mkPR src (h_two_step (m_header m)) (ts - h_correction (m_header m) * 2 ^ 16) (wts t2) :: resps s1)
-                  (pfups s1) (Some src)
+                  (pfups s1) (Some src) (contested s1)
         | BPDelayRespFollowUp t3 _, _ =>
             mkP14 (cur_id s1) (t1s s1) (resps s1)
-                  (mkPF src (wts t3 + h_correction (m_header m) * 2 ^ 16) :: pfups s1) (Some src)
+                  (mkPF src (wts t3 + h_correction (m_header m) * 2 ^ 16) :: pfups s1) (Some src) (contested s1)
         | _, _ => s1
         end
     | None => s1
@@ -108,8 +109,11 @@ Definition step_port14 (c : pcase) (prev : snapshot) (e : event) (p : nat) (o : 
                   && opt_z_eqb (me_raw_sync m) None && opt_z_eqb (me_raw_delay m) None
       | None => true
       end) peer_ms in
-  (* 3. a second responder makes the port faulty and its message is not used *)
-  let multi := if conflict then (state_of sn p =? 2) && (length peer_ms =? 0)%nat else true in
+  (* 3. a second responder makes the port faulty and its message is not used;
+        an exchange that was answered by two responders never yields a
+        measurement afterwards (so the faulty state cannot be left through it) *)
+  let multi := (if conflict then (state_of sn p =? 2) && (length peer_ms =? 0)%nat else true)
+               && (if contested s2 then (length peer_ms =? 0)%nat else true) in
   (* 4. while faulty: no master-role frames, no sync/delay measurements *)
   let inert :=
     if state_of prev p =? 2 then
@@ -130,7 +134,7 @@ Definition step_port14 (c : pcase) (prev : snapshot) (e : event) (p : nat) (o : 
     (* a new Pdelay_Req starts a new exchange *)
     let new_req := flat_map (fun x => match x with ASendEvent (CtxPDelayReq id) _ _ => [id] | _ => [] end) o in
     Some (match new_req with
-          | id :: _ => mkP14 (Some id) [] [] [] None
+          | id :: _ => mkP14 (Some id) [] [] [] None false
           | [] => s2
           end)
   else None.
